@@ -98,7 +98,8 @@ def cms_case(draw):
             # the batch is any iterable of items: a list, a tuple, or a one-shot iterator / generator (a streaming reader)
             ops.append(['batch', items, w, draw(st.sampled_from(['list', 'list', 'tuple', 'iter', 'gen', 'ndarray']))])
             total += w * len(items)
-    return {'depth': depth, 'width': width, 'seed': seed, 'ops': ops}
+    # the row seeds may be pinned right after construction (to make two sketches addable / a run reproducible)
+    return {'depth': depth, 'width': width, 'seed': seed, 'ops': ops, 'pinned_seeds': draw(st.sampled_from([False, False, True]))}
 
 
 def _fingerprint(M):
@@ -129,6 +130,9 @@ def oracle_cms(case, rec):
 
     np.random.seed(seed)
     sk = CountMinSketch(depth, width)
+    if case.get('pinned_seeds'):
+        sk.hash_seeds = np.array([(seed + 7919 * i) % (2 ** 31 - 1) for i in range(depth)], dtype=np.uint32)
+        rec.cls('row-seeds-pinned-after-construction')
     true = Counter()
     seen = []          # insertion-ordered distinct items added (never iterate a set)
     total = 0
@@ -246,8 +250,9 @@ def oracle_counter(case, rec):
         if tracked > bound:
             raise Violation(f'{where}: counter tracks {tracked} distinct values, more than its bound', kind='C15/counter-size')
         exact = len(seen) < bound
-        for y in seen:
-            got = pc.default_counter.get(y, 0)
+        for yi, y in enumerate(seen):
+            # look-ups by subscription and by .get (a Counter answers 0 for an untracked value and does not start tracking it)
+            got = pc.default_counter[y] if (yi + k) % 2 else pc.default_counter.get(y, 0)
             t = true[_ukey(y)]
             if got > t:
                 raise Violation(f'{where}: count({y!r})={got} over-counts the true {t}', kind='C15/counter-overcount')
